@@ -160,7 +160,7 @@ func (e *Env) RCursor(withFileOrder bool) {
 						ok, why := false, ""
 						switch s.Tok {
 						case token.ASSIGN:
-							ok = fd.Name.Name == "RestoreFile" && rhs != nil && c.ExprStr(rhs) == "token.Pos(r.base)"
+							ok = e.isResetCtx(fd) && rhs != nil && strings.HasPrefix(c.ExprStr(rhs), "token.Pos(") // (that it is the file base is decided by restoreFileOrder)
 							why = "the cursor may only be reset to the file base at the start of RestoreFile"
 						case token.ADD_ASSIGN:
 							ok = rhs != nil && e.positiveAdvance(info, rhs)
@@ -178,13 +178,13 @@ func (e *Env) RCursor(withFileOrder bool) {
 						ok := false
 						if rhs != nil {
 							r := c.ExprStr(rhs)
-							ok = strings.HasPrefix(r, "append(r.comments, ") || (fd.Name.Name == "RestoreFile" && r == "[]*CommentGroup{}")
+							ok = strings.HasPrefix(r, "append(r.comments, ") || (e.isResetCtx(fd) && r == "[]*CommentGroup{}")
 						}
 						e.Run.Check("R-CURSOR", fmt.Sprintf("comment list store in %s: %s", fname, exprOr(c, rhs)), e.Prog.Pos(s.Pos()), ok,
 							"the free comment list is append-only (comments stay in position order because the cursor is monotone)")
 					case e.isRestorerField(info, l, "cursorAtNewLine"):
 						nMarker++
-						ok := rhs != nil && (isCursor(rhs) || (fd.Name.Name == "RestoreFile" && c.ExprStr(rhs) == "0"))
+						ok := rhs != nil && (isCursor(rhs) || (e.isResetCtx(fd) && c.ExprStr(rhs) == "0"))
 						e.Run.Check("R-CURSOR", fmt.Sprintf("fresh-line marker store in %s: %s", fname, exprOr(c, rhs)), e.Prog.Pos(s.Pos()), ok,
 							"the marker must be the cursor itself (position directly after a line break)")
 					default:
@@ -301,7 +301,7 @@ func (e *Env) linesStore(c *schema.Ctx, info *types.Info, fd *ast.FuncDecl, s *a
 	}
 	r := c.ExprStr(rhs)
 	if r == "[]int{0}" {
-		return fd.Name.Name == "RestoreFile", "the line table may only be reset in RestoreFile"
+		return e.isResetCtx(fd), "the line table may only be reset in RestoreFile"
 	}
 	call, ok := rhs.(*ast.CallExpr)
 	if !ok || len(call.Args) != 2 || c.ExprStr(call.Fun) != "append" || c.ExprStr(call.Args[0]) != "r.lines" {
@@ -860,52 +860,143 @@ func (e *Env) restoreFileOrder(c *schema.Ctx) {
 		e.Run.Violation("R-CURSOR", "RestoreFile exists", "", "function missing")
 		return
 	}
-	idx := func(pred func(string, ast.Stmt) bool) int {
-		for i, st := range fd.Body.List {
-			if pred(stmtNorm(c, st), st) {
+	info := pkg.TypesInfo
+	// RestoreFile with its void helper methods spliced in (reset / register helpers), one level
+	helperOf := func(st ast.Stmt) *ast.FuncDecl {
+		es, ok := st.(*ast.ExprStmt)
+		if !ok {
+			return nil
+		}
+		call, ok := es.X.(*ast.CallExpr)
+		if !ok {
+			return nil
+		}
+		fn := calleeFunc(info, call)
+		if fn == nil || fn.Pkg() != pkg.Types {
+			return nil
+		}
+		if sig, ok := fn.Type().(*types.Signature); !ok || sig.Results().Len() != 0 || sig.Recv() == nil {
+			return nil
+		}
+		for _, d := range load.AllFuncDecls(pkg) {
+			if info.Defs[d.Name] == types.Object(fn) && d.Body != nil && d != fd {
+				return d
+			}
+		}
+		return nil
+	}
+	var flat []ast.Stmt
+	for _, st := range fd.Body.List {
+		if h := helperOf(st); h != nil {
+			flat = append(flat, h.Body.List...)
+			continue
+		}
+		flat = append(flat, st)
+	}
+	idx := func(pred func(ast.Stmt) bool) int {
+		for i, st := range flat {
+			if pred(st) {
 				return i
 			}
 		}
 		return -1
 	}
-	iBase := idx(func(s string, _ ast.Stmt) bool { return s == "r.base = r.Fset.Base()" })
-	iCur := idx(func(s string, _ ast.Stmt) bool { return s == "r.cursor = token.Pos(r.base)" })
-	iRoot := idx(func(s string, _ ast.Stmt) bool { return strings.Contains(s, "r.restoreNode(r.file,") })
-	iAdd := idx(func(s string, _ ast.Stmt) bool { return strings.Contains(s, "r.Fset.AddFile(") })
-	iSet := idx(func(s string, st ast.Stmt) bool {
+	storeOf := func(st ast.Stmt, field string) ast.Expr {
+		as, ok := st.(*ast.AssignStmt)
+		if !ok || len(as.Lhs) != len(as.Rhs) || as.Tok != token.ASSIGN {
+			return nil
+		}
+		for k, l := range as.Lhs {
+			if e.isRestorerField(info, l, field) {
+				return as.Rhs[k]
+			}
+		}
+		return nil
+	}
+	containsCall := func(st ast.Stmt, name string) *ast.CallExpr {
+		var out *ast.CallExpr
+		ast.Inspect(st, func(n ast.Node) bool {
+			if call, ok := n.(*ast.CallExpr); ok && out == nil {
+				if se, ok := call.Fun.(*ast.SelectorExpr); ok && se.Sel.Name == name {
+					out = call
+				}
+			}
+			return true
+		})
+		return out
+	}
+	iBase := idx(func(st ast.Stmt) bool { return storeOf(st, "base") != nil })
+	iCur := idx(func(st ast.Stmt) bool { return storeOf(st, "cursor") != nil })
+	iRoot := idx(func(st ast.Stmt) bool {
+		cl := containsCall(st, "restoreNode")
+		return cl != nil && len(cl.Args) > 0 && c.ExprStr(cl.Args[0]) == "r.file"
+	})
+	iAdd := idx(func(st ast.Stmt) bool { return containsCall(st, "AddFile") != nil })
+	iSet := idx(func(st ast.Stmt) bool {
 		is, ok := st.(*ast.IfStmt)
 		return ok && strings.Contains(c.ExprStr(is.Cond), ".SetLines(r.lines)") && strings.HasPrefix(c.ExprStr(is.Cond), "!") && c.PanicsOnly(is.Body.List)
 	})
-	iImp := idx(func(s string, _ ast.Stmt) bool { return strings.Contains(s, "r.updateImports()") })
+	iImp := idx(func(st ast.Stmt) bool { return containsCall(st, "updateImports") != nil })
 	pos := e.Prog.Pos(fd.Pos())
-	e.Run.Check("R-CURSOR", "RestoreFile: base taken from the file set before the cursor starts", pos, iBase >= 0 && iCur > iBase, "expected r.base = r.Fset.Base() followed by r.cursor = token.Pos(r.base)")
-	e.Run.Check("R-CURSOR", "RestoreFile: imports updated before any position is assigned", pos, iImp > iCur && iRoot > iImp, "updateImports must run after the reset and before the root restore")
+	// base comes from the file set; the cursor starts at that same value
+	okBase := false
+	if iBase >= 0 && iCur >= 0 {
+		bs, cs := c.ExprStr(storeOf(flat[iBase], "base")), c.ExprStr(storeOf(flat[iCur], "cursor"))
+		fromFset := bs == "r.Fset.Base()"
+		if !fromFset {
+			// a local that holds r.Fset.Base()
+			for _, st := range flat[:iBase] {
+				if as, ok := st.(*ast.AssignStmt); ok && as.Tok == token.DEFINE && len(as.Lhs) == 1 && len(as.Rhs) == 1 {
+					if c.ExprStr(as.Lhs[0]) == bs && c.ExprStr(as.Rhs[0]) == "r.Fset.Base()" {
+						fromFset = true
+					}
+				}
+			}
+		}
+		okBase = fromFset && ((cs == "token.Pos(r.base)" && iCur > iBase) || cs == "token.Pos("+bs+")")
+	}
+	e.Run.Check("R-CURSOR", "RestoreFile: base taken from the file set before the cursor starts", pos, okBase, "expected r.base = r.Fset.Base() and r.cursor = token.Pos(<that base>) in the reset")
+	e.Run.Check("R-CURSOR", "RestoreFile: imports updated before any position is assigned", pos, iImp > iCur && iImp > iBase && iRoot > iImp, "updateImports must run after the reset and before the root restore")
 	addOK := false
 	if iAdd >= 0 {
-		addOK = strings.Contains(stmtNorm(c, fd.Body.List[iAdd]), "r.Fset.AddFile(r.Name, r.base, r.fileSize())")
+		addOK = strings.Contains(stmtNorm(c, flat[iAdd]), "r.Fset.AddFile(r.Name, r.base, r.fileSize())")
 	}
 	e.Run.Check("R-CURSOR", "RestoreFile: file registered at its base with the computed size, after the tree is restored", pos, addOK && iAdd > iRoot && iRoot >= 0,
 		"expected ff := r.Fset.AddFile(r.Name, r.base, r.fileSize()) after the root restoreNode (the size must cover every position assigned)")
 	e.Run.Check("R-CURSOR", "RestoreFile: SetLines failure is not ignored", pos, iSet > iAdd && iAdd >= 0, "expected `if !ff.SetLines(r.lines) { panic(...) }` after AddFile")
-	// after AddFile: no call that assigns positions
+	// after AddFile: no call that assigns positions (directly or through a helper method)
 	if iAdd >= 0 {
-		for _, st := range fd.Body.List[iAdd+1:] {
-			ast.Inspect(st, func(n ast.Node) bool {
-				call, ok := n.(*ast.CallExpr)
-				if !ok {
+		for _, st := range flat[iAdd+1:] {
+			var visit func(n ast.Node, depth int)
+			visit = func(root ast.Node, depth int) {
+				ast.Inspect(root, func(n ast.Node) bool {
+					call, ok := n.(*ast.CallExpr)
+					if !ok {
+						return true
+					}
+					fn := calleeFunc(info, call)
+					if fn == nil || fn.Pkg() == nil || fn.Pkg().Path() != load.PkgDecorator {
+						return true
+					}
+					switch fn.Name() {
+					case "restoreNode", "applySpace", "applyDecorations", "applyLiteral", "restoreIdent":
+						e.Run.Violation("R-CURSOR", "RestoreFile: "+fn.Name()+" after the file is registered", e.Prog.Pos(call.Pos()),
+							"positions assigned after AddFile lie outside the registered file (its size was computed before) and, when ranging over a map, depend on iteration order")
+						return true
+					}
+					if depth < 1 {
+						for _, d := range load.AllFuncDecls(pkg) {
+							if info.Defs[d.Name] == types.Object(fn) && d.Body != nil && d != fd {
+								if sig, ok := fn.Type().(*types.Signature); ok && sig.Results().Len() == 0 && sig.Recv() != nil {
+									visit(d.Body, depth+1)
+								}
+							}
+						}
+					}
 					return true
-				}
-				fn := calleeFunc(pkg.TypesInfo, call)
-				if fn == nil || fn.Pkg() == nil || fn.Pkg().Path() != load.PkgDecorator {
-					return true
-				}
-				switch fn.Name() {
-				case "restoreNode", "applySpace", "applyDecorations", "applyLiteral", "restoreIdent":
-					e.Run.Violation("R-CURSOR", "RestoreFile: "+fn.Name()+" after the file is registered", e.Prog.Pos(call.Pos()),
-						"positions assigned after AddFile lie outside the registered file (its size was computed before) and, when ranging over a map, depend on iteration order")
-				}
-				return true
-			})
+				})
+			}
+			visit(st, 0)
 		}
 	}
 }
@@ -1465,4 +1556,44 @@ func (e *Env) stateAliases(info *types.Info, fd *ast.FuncDecl) (curAlias, linesA
 		return true
 	})
 	return
+}
+
+// isResetCtx: fd is RestoreFile, or a void method of the restorer that RestoreFile calls as a
+// statement before it restores the root node (a reset helper): the per-file state may be
+// (re)initialised there.
+func (e *Env) isResetCtx(fd *ast.FuncDecl) bool {
+	if fd.Name.Name == "RestoreFile" && fd.Recv != nil {
+		return true
+	}
+	pkg := e.Prog.Pkg(load.PkgDecorator)
+	info := pkg.TypesInfo
+	rf := load.FuncDecl(pkg, "FileRestorer", "RestoreFile")
+	if rf == nil || rf.Body == nil {
+		return false
+	}
+	for _, st := range rf.Body.List {
+		// stop at the root restore
+		root := false
+		ast.Inspect(st, func(n ast.Node) bool {
+			if call, ok := n.(*ast.CallExpr); ok {
+				if se, ok := call.Fun.(*ast.SelectorExpr); ok && se.Sel.Name == "restoreNode" {
+					root = true
+				}
+			}
+			return true
+		})
+		if root {
+			return false
+		}
+		if es, ok := st.(*ast.ExprStmt); ok {
+			if call, ok := es.X.(*ast.CallExpr); ok {
+				if fn := calleeFunc(info, call); fn != nil && info.Defs[fd.Name] == types.Object(fn) {
+					if sig, ok := fn.Type().(*types.Signature); ok && sig.Results().Len() == 0 && sig.Recv() != nil {
+						return true
+					}
+				}
+			}
+		}
+	}
+	return false
 }
